@@ -5,6 +5,9 @@ from fmt_engine import *
 
 MODULE = "Feox.Props.C10"
 THEOREMS = [
+    "Feox.C10.reader_finds_exactly_the_index",
+    "Feox.C10.blank_data_area_represents_free",
+    "Feox.Fmt.repTiled_sound",
     "Feox.C10.metadata_roundtrip", "Feox.C10.metadata_image_size", "Feox.C10.journal_roundtrip", "Feox.C10.journal_clear_roundtrip", "Feox.C10.journal_slot_selection",
     "Feox.C10.layout_disjoint", "Feox.C10.meta_offsets", "Feox.C10.token_nonzero",
     "Feox.C10.token_ignores_seq_field", "Feox.C10.token_covers_tails", "Feox.C10.parse_layout",
